@@ -1,6 +1,8 @@
 package sym
 
 import (
+	"go/token"
+	"go/ast"
 	"fmt"
 	"go/types"
 	"strings"
@@ -169,4 +171,65 @@ func (ex *Exec) rowInvWrite(id string, key []*smt.Term, val *BytesV) {
 		row := copyDeep(val.Obj)
 		ex.oblige(ex.TopKey+"/rowinv:"+r.Name, ex.rowInvEval(r, row, key), "write to "+id)
 	}
+}
+
+// rowKeyFields: where a row invariant says `row.F == key<i>`, the field of a row read under a
+// key IS that key term (the same fact the invariant assumes, made syntactic so that further
+// reads keyed by the field address the same row).
+func (ex *Exec) rowKeyFields(ref *RowRef, row Val, t types.Type) Val {
+	if ref == nil || ref.Table == "" || ex.Cfg.EnvRef == nil {
+		return row
+	}
+	st, ok := t.Underlying().(*types.Struct)
+	if !ok {
+		return row
+	}
+	var out Val = row
+	for _, r := range ex.Cfg.EnvRef.Specs.RowInvs {
+		if r.Table != ref.Table || r.rowT == nil || !types.Identical(r.rowT, t) || r.Expr == nil || len(r.Expr.Ante) > 0 {
+			continue
+		}
+		var conj func(e ast.Expr)
+		conj = func(e ast.Expr) {
+			switch x := e.(type) {
+			case *ast.ParenExpr:
+				conj(x.X)
+			case *ast.BinaryExpr:
+				if x.Op == token.LAND {
+					conj(x.X)
+					conj(x.Y)
+					return
+				}
+				if x.Op != token.EQL {
+					return
+				}
+				a, b := x.X, x.Y
+				for k := 0; k < 2; k++ {
+					sel, ok1 := a.(*ast.SelectorExpr)
+					id, ok2 := b.(*ast.Ident)
+					if ok1 && ok2 && strings.HasPrefix(id.Name, "key") {
+						if base, ok := sel.X.(*ast.Ident); ok && base.Name == "row" {
+							var ki int
+							if _, err := fmt.Sscanf(id.Name, "key%d", &ki); err == nil && ki < len(ref.TKey) {
+								for fi := 0; fi < st.NumFields(); fi++ {
+									if st.Field(fi).Name() == sel.Sel.Name {
+										if srt, ok := scalarSort(st.Field(fi).Type()); ok && srt == ref.TKey[ki].Sort {
+											sv, ok := ex.force(out).(*StructV)
+											if ok {
+												sv.F[fi] = ref.TKey[ki]
+												out = sv
+											}
+										}
+									}
+								}
+							}
+						}
+					}
+					a, b = b, a
+				}
+			}
+		}
+		conj(r.Expr.Cons)
+	}
+	return out
 }
